@@ -241,7 +241,7 @@ class Gen:
             choices.append((2, "macro"))
         choices.append((1, "char"))
         if depth > 0:
-            choices += [(3, "paren"), (2, "unary"), (2, "cast"), (1, "sizeof")]
+            choices += [(3, "paren"), (2, "unary"), (2, "cast"), (1, "sizeof"), (1, "ptrcast")]
             if allow_call:
                 choices.append((3, "call"))
             if env.any_lvalues():
@@ -287,6 +287,38 @@ class Gen:
             self.tag("cast")
             operand = self.cast_operand(ty, self.unary_operand(env, depth - 1, for_cast=True))
             return [Lx("(", "par", ("cast-open",))] + self.type_lex(ty) + [Lx(")", "par", ("cast-close",))] + operand
+        if k == "ptrcast":
+            # (T *)operand with keyword, struct/union-tag and typedef-name types; the '*' inside the parentheses makes it unambiguous
+            kinds = [(4, "kw"), (2, "struct"), (1, "union"), (2, "tdef")]
+            tk = d.weighted(kinds)
+            if tk == "kw":
+                ty = d.choice(["char", "void", "int", "unsigned char", "const char", "long"])
+            elif tk == "struct":
+                ty = d.choice(["", "const "]) + "struct " + (d.choice(self.stags) if self.stags and d.bool() else "s_" + d.choice(["list", "node", "x", "data"]))
+            elif tk == "union":
+                ty = "union u_" + d.choice(["val", "x", "num"])
+            else:
+                if not self.tdefs or d.bool(0.3):
+                    self.tdefs.append(self.fresh("tdef", prefix="t_", lo=2, hi=6))
+                ty = d.choice(self.tdefs)
+            stars = d.weighted([(6, 1), (1, 2)])
+            ok = d.weighted([(4, "ptr"), (3, "addr"), (1, "null"), (1, "zero"), (1, "deref"), (1, "neg"), (1, "call")])
+            if ok == "ptr" and env.ptrs:
+                operand = [Lx(d.choice(env.ptrs), "id")]
+            elif ok == "addr" and (env.ints or env.structs):
+                operand = [Lx("&", "un", ("unary:&",)), Lx(d.choice(env.ints) if env.ints else env.structs[0][0], "id")]
+            elif ok == "deref" and env.ptrs:
+                operand = [Lx("*", "un", ("unary:*",)), Lx(d.choice(env.ptrs), "id")]
+            elif ok == "neg":
+                operand = [Lx("-", "un", ("unary:-",)), Lx("1", "num", ("const:dec",))]
+            elif ok == "call" and allow_call:
+                operand = self.call(env, depth - 1)
+            elif ok == "zero":
+                operand = [Lx("0", "num", ("const:dec",))]
+            else:
+                operand = [Lx("NULL", "kw")]
+            self.tag("cast:pointer", "cast:pointer:" + tk)
+            return [Lx("(", "par", ("cast-open",))] + self.type_lex(ty) + [SP()] + [Lx("*", "op", ("ptr-in-type",)) for _ in range(stars)] + [Lx(")", "par", ("cast-close",))] + operand
         if k == "sizeof":
             self.tag("sizeof")
             if d.bool() or not env.ints:
@@ -1179,6 +1211,9 @@ class Gen:
                 self.globals_seen.append(name)
         col = self.align_col([len(t) for t, _ in specs], 0)
         for ty, dec in specs:
+            if col + self.width(dec) + 1 > 80:
+                keep = [x for x in dec if "global-name" in x.tags]
+                dec = [x for x in dec if x.t == "*" and "ptr-decl" in x.tags][:1] + keep + [SP(), Lx("=", "op", ("asgop", "init")), SP(), Lx("0", "num", ("const:dec",))]
             lex = self.type_lex(ty) + [Lx("\t", "tab", ("align",)) for _ in self.tabs_to(len(ty), col)] + dec + [Lx(";", "semi")]
             self.emit(lex, "global", 0, -1, info={"type": ty})
 
@@ -1280,6 +1315,50 @@ def decorate(p, d, skip=()):
             n += 1
     if n:
         p.tags.add("comment:trailing")
+    if d.bool(0.2):
+        lengthen(p, d)
+    return p
+
+
+def lengthen(p, d):
+    """Neutral decoration: one identifier of the program gets a very long spelling (31..72 characters), wherever every line that uses it
+    still fits in 80 columns.  Names sit behind the alignment tabs, so the layout stays conforming."""
+    cands = sorted(n for n, c in p.idents.items() if c in ("var", "fn", "macro", "glob") and len(n) >= 2)
+    for _ in range(4):
+        if not cands:
+            return p
+        name = d.choice(cands)
+        slack = None
+        for ln in p.lines:
+            cnt = sum(1 for x in ln.lex if x.k == "id" and x.t == name)
+            if cnt:
+                room = (80 - vwidth(ln.text)) // cnt
+                slack = room if slack is None else min(slack, room)
+        if slack is None or len(name) + slack < 32:
+            continue
+        top = min(len(name) + slack, 72)
+        # lengths around the translation limits of C (31 / 63 significant characters) and beyond
+        length = min(top, d.choice([31, 32, 33, 63, 64, 65, 66, 72, d.int(32, 72), d.int(60, 72)]))
+        if length <= len(name):
+            continue
+        k = 2 if name[:2] == "g_" else 3 if name[:3] == "ft_" else 1
+        alpha = "ABCDEFGHIJKLMNOPQRSTUVWXYZ0123456789" if name.isupper() else "abcdefghijklmnopqrstuvwxyz0123456789"
+        new = name[:k] + "".join(d.choice(alpha) for _ in range(length - len(name))) + name[k:]
+        if new in p.idents:
+            continue
+        touched = []
+        for ln in p.lines:
+            for x in ln.lex:
+                if x.k == "id" and x.t == name:
+                    x.t = new
+                    touched.append(x)
+        if any(vwidth(ln.text) > 80 for ln in p.lines):
+            for x in touched:
+                x.t = name
+            continue
+        p.idents[new] = p.idents.pop(name)
+        p.tags.add("name:long")
+        return p
     return p
 
 
